@@ -185,11 +185,21 @@ func init() {
 			{[]string{":getter", ":typecast"}, []string{"Conv(*S) *DG"}},
 			{[]string{":postprocess PostG"}, []string{"AConv(*S) (*DG, error)", "BConv(*S) *DG"}},
 			{[]string{":preprocess PostG"}, []string{"AConv(*S) (*DG, error)", "BConv(*S) *DG"}},
+			// an error-returning converter / getter whose value still needs the opted-in conversion
+			{[]string{":typecast", ":conv C1 A X64"}, []string{"Conv(*S) *DG"}},
+			{[]string{":typecast", ":map GE() X64"}, []string{"Conv(*S) *DG"}},
+			{[]string{":typecast", ":conv C1 A X64"}, []string{"Conv(*S) (*DG, error)"}},
+			// a converter GENERATED in the same run that returns an error, used by a method that does not
+			{[]string{":conv GenE M MM"}, []string{"Conv(*S) *DG", "GenE(*N) (*N2, error)"}},
 		} {
-			decls := c07Decls + "\ntype DG struct {\n\tGE int\n\tge int\n\tA int\n}\n\nfunc PostG(d *DG, s *S) error { return tr.HitErr(\"post\") }\n"
+			decls := c07Decls + "\ntype DG struct {\n\tGE int\n\tge int\n\tA int\n\tX64 int64\n\tMM *N2\n}\n\nfunc PostG(d *DG, s *S) error { return tr.HitErr(\"post\") }\n"
 			var methods []scen.MethodDecl
-			for _, sg := range v.sigs {
-				methods = append(methods, scen.MethodDecl{Notations: v.notes, Sig: sg})
+			for si, sg := range v.sigs {
+				notes := v.notes
+				if strings.HasPrefix(sg, "GenE(") || (si > 0 && strings.Contains(strings.Join(v.notes, " "), ":conv GenE")) {
+					notes = nil
+				}
+				methods = append(methods, scen.MethodDecl{Notations: notes, Sig: sg})
 			}
 			setup := scen.SetupFile(false, decls, nil, methods)
 			setup = strings.Replace(setup, "package x\n", "package x\n\nimport \"example.com/m/tr\"\n", 1)
@@ -223,7 +233,10 @@ func init() {
 					if strings.Contains(head, "err error") {
 						continue
 					}
-					for _, callee := range []string{".GE()", "PostG("} {
+					if strings.HasPrefix(name, "GenE") {
+						continue
+					}
+					for _, callee := range []string{".GE()", "PostG(", "C1(", "GenE("} {
 						if strings.Contains(txt, callee) {
 							fs = append(fs, report.Finding{Key: "C07|error-site-in-function-without-error-result|" + strings.Trim(callee, ".("), What: "function " + name + " has no error result but calls the error-returning " + callee + ")"})
 						}
